@@ -290,6 +290,11 @@ func (p *parser) primary() Expr {
 			p.expect(")")
 			return e
 		}
+		if t.s == "[" && p.isOp("]") {
+			// slice type expression []T
+			p.p++
+			return EUnary{"[]", p.postfix(p.primary())}
+		}
 	}
 	p.p--
 	p.fail("unexpected token %q", t.s)
